@@ -925,3 +925,25 @@ Proof.
       rewrite (mul32_id count sz) by (unfold is_int32; nia).
       destruct (Z.ltb_spec 65535 (count * sz)); simpl; destruct (Z.leb_spec (count * sz) 65535); try lia; split; reflexivity.
 Qed.
+
+(* ------------------------------------------------------------------ limits enforced at more than one site; scans up to MAX_REF *)
+Lemma variable_limit_lemma : forall c,
+  coordvar_too_many_vars c = sdcreate_too_many_vars c /\ (truth (coordvar_too_many_vars c) = true <-> H4_MAX_NC_VARS <= c).
+Proof.
+  intros c. unfold coordvar_too_many_vars, sdcreate_too_many_vars, truth, H4_MAX_NC_VARS. split; [reflexivity|].
+  destruct (Z.leb_spec 5000 c); simpl; split; intros; try lia; try reflexivity; discriminate.
+Qed.
+
+Lemma attribute_count_lemma : forall c, truth (putattr_too_many c) = true <-> H4_MAX_NC_ATTRS <= c.
+Proof.
+  intros c. unfold putattr_too_many, truth, H4_MAX_NC_ATTRS.
+  destruct (Z.leb_spec 3000 c); simpl; split; intros; try lia; try reflexivity; discriminate.
+Qed.
+
+Lemma lone_scan_lemma : forall i, 0 <= i ->
+  (truth (vslone_scan_more i) = true <-> i <= MAX_REF) /\ (truth (vlone_scan_more i) = true <-> i <= MAX_REF).
+Proof.
+  intros i Hi. unfold vslone_scan_more, vlone_scan_more, truth, MAX_REF.
+  match goal with |- context [Z.leb i ?c] => let v := eval vm_compute in c in change c with v end.
+  destruct (Z.leb_spec i 65535); simpl; split; split; intros; try lia; try reflexivity; discriminate.
+Qed.
